@@ -3,6 +3,7 @@ import collections
 import json
 import os
 import random
+import shutil
 import time
 
 from . import common as C
@@ -1514,6 +1515,33 @@ def entry_records(scenarios, results):
     return recs
 
 
+def path_algebra(tier):
+    """binds spec/PathAlg.tla to std::path: TLC writes every byte string up to a length over `/ . a`, the harness
+    evaluates std on every ordered pair, TLC validates every operator of the model and the laws of the algebra"""
+    n = 4 if tier == "quick" else 5
+    tmp = C.scratch()
+    try:
+        strings = os.path.join(tmp, "strings.ndjson")
+        out, st = C.tlc("PathAlgCheck.tla", "PathAlgCheck.cfg", env={"MODE": "gen", "OUT": strings, "MAXLEN": str(n)}, timeout=600, workers=2)
+        if not st["ok"] or not os.path.exists(strings):
+            C.log(st.get("tail", ""))
+            raise C.ToolError("TLC did not write the strings of PathAlgCheck")
+        obs = os.path.join(tmp, "pairs.ndjson")
+        C.run_wv(["pathalg", strings, obs])
+        out, st = C.tlc("PathAlgCheck.tla", "PathAlgCheck.cfg", env={"MODE": "check", "OBS": obs}, timeout=1800)
+        if not st["ok"]:
+            C.log(st.get("tail", ""))
+            raise C.ToolError("TLC did not complete on PathAlgCheck")
+        bad = [r for r in C.tlc_records(out) if r["t"] == "MODEL"]
+        if bad:
+            raise C.ToolError("PathAlg.tla does not agree with std::path: %s on %r, %r" % (bad[0]["what"], bytes(bad[0]["a"]), bytes(bad[0]["b"])))
+        with open(obs) as f:
+            pairs = sum(1 for _ in f)
+        return {"max_len": n, "pairs": pairs, "states": st["distinct"]}
+    finally:
+        shutil.rmtree(tmp, ignore_errors=True)
+
+
 def check_C14(tier):
     t0 = time.time()
     rnd = random.Random(C.SEED)
@@ -1572,7 +1600,10 @@ def check_C14(tier):
         raise C.ToolError("TLC did not complete on EntryCheck")
     by_sid = {h["sid"]: h for h in scenarios}
     nd = 0
+    palg = path_algebra(tier)
     for r in C.tlc_records(out):
+        if r["t"] == "MODEL":
+            raise C.ToolError("PathAlg.tla and std::path disagree on a recorded entry (%s, record %d)" % (r["what"], r["rec"]))
         if r["t"] == "DISAGREE":
             nd += 1
             f = recs[r["rec"] - 1]["f"]
@@ -1591,7 +1622,7 @@ def check_C14(tier):
         "evaluations": len(recs), "distinct_nontrivial": len({(x["sid"], tuple(x["f"]["path"])) for x in recs if x["f"]["depth"] > 0}),
         "rule": "records = every entry yielded by %d real walks: globs (unprefixed, prefixed, rooted at the absolute scratch path, ./.. prefixes) over three trees x bases inside the tree x base spelled absolute / with trailing separator / with a . component, with depth behaviours and both link behaviours, and plain path walks; the std::path facts are evaluated by the harness and validated by TLC (EntryCheck!Consistent); non-trivial = entries below the walk root" % len(scenarios),
         "disagreements": nd, "known_findings_hit": sorted(v.findings), "exhaustive": False,
-    }, time.time() - t0, len(v.violations), ["TLC", "std::path (join, components, equality) is the oracle the statement names; evaluated in the harness"])
+    }, time.time() - t0, len(v.violations), ["TLC", "std::path is what the statement's notions (join, components) are defined by; PathAlg.tla restates them and is checked against std exhaustively on short byte strings"])
     return rc
 
 
